@@ -2,6 +2,57 @@
 rng handed in; no pycaption import (the generator must not depend on the tree under test).
 Documents need not be well-formed: the oracle compares pycaption with itself."""
 
+class TapeRng:
+    """A random source whose every decision is one float on a tape.  Replaying the tape with a few
+    positions redrawn gives a *sibling* document: same structure and mostly the same text, different in
+    one or two places (what a memo keyed on too little of the document confuses)."""
+
+    def __init__(self, base, tape=None):
+        self.base = base
+        self.tape = list(tape) if tape is not None else []
+        self.pos = 0
+
+    def random(self):
+        if self.pos >= len(self.tape):
+            self.tape.append(self.base.random())
+        v = self.tape[self.pos]
+        self.pos += 1
+        return v
+
+    def randrange(self, a, b=None):
+        if b is None:
+            a, b = 0, a
+        return a + min(int(self.random() * (b - a)), b - a - 1)
+
+    def randint(self, a, b):
+        return self.randrange(a, b + 1)
+
+    def choice(self, seq):
+        return seq[self.randrange(len(seq))]
+
+    def sample(self, seq, k):
+        pool = list(seq)
+        out = []
+        for _ in range(k):
+            out.append(pool.pop(self.randrange(len(pool))))
+        return out
+
+    def shuffle(self, lst):
+        for i in range(len(lst) - 1, 0, -1):
+            j = self.randrange(i + 1)
+            lst[i], lst[j] = lst[j], lst[i]
+
+    def sibling_tape(self, rng, n=None):
+        t = list(self.tape)
+        if not t:
+            return t
+        for _ in range(n or rng.choice([1, 1, 2, 3])):
+            # bias to the later part of the tape: early decisions are structural and reshuffle everything after them
+            k = rng.randrange(len(t)) if rng.random() < 0.4 else rng.randrange(len(t) // 2, len(t))
+            t[k] = rng.random()
+        return t
+
+
 WORDS = ("alpha beta gamma delta lorem ipsum dolor sit amet hello world caption line two "
          "MAN: WOMAN: (laughs) music wait what now then again over under quick brown fox "
          "it's don't 1 2 3 42 100 ... -- yes no ok").split()
@@ -63,6 +114,10 @@ def gen_srt(rng, n=None):
         doc = "\n" + doc
     elif r < 0.11:
         doc = doc.replace(" --> ", " -> ", 1)
+    elif r < 0.2 and n > 1:
+        # a malformed timestamp in a later cue: the reader raises after having built earlier captions
+        k = doc.rfind(" --> ")
+        doc = doc[:k - 6] + rng.choice(["xx", "", ":"]) + doc[k - 4:]
     return doc
 
 
@@ -95,7 +150,10 @@ def gen_webvtt(rng, n=None):
                 ["align:left", "align:middle", "position:10%", "line:20%", "size:35%", "line:0", "vertical:rl"],
                 rng.randint(1, 3)))
         short = rng.random() < 0.3
-        out.append("%s --> %s%s" % (_vtt_ts(s, short), _vtt_ts(e, short), settings))
+        if i > 0 and rng.random() < 0.04:
+            out.append("%s --> %s" % (rng.choice(["00:0x.000", "1:2", "--", "00:00:01"]), _vtt_ts(e, short)))
+        else:
+            out.append("%s --> %s%s" % (_vtt_ts(s, short), _vtt_ts(e, short), settings))
         for _ in range(rng.randint(1, 3)):
             t = text(rng)
             r = rng.random()
@@ -193,8 +251,14 @@ def gen_sami(rng, n=None, nlangs=None):
         if rng.random() < 0.5:
             body.append("<SYNC start=\"%d\">%s</SYNC>" % (
                 e, "".join("<P class=\"%s\">&nbsp;</P>" % classes[j] for j in range(nlangs))))
+    if len(body) > 1 and rng.random() < 0.08:
+        k = rng.randrange(1, len(body))
+        body[k] = body[k].replace(" start=\"", " begin=\"", 1)     # later SYNC without start: raises after earlier captions
     tail = "\n</BODY></SAMI>\n" if rng.random() < 0.9 else "\n"
-    return head + "\n".join(body) + tail
+    doc = head + "\n".join(body) + tail
+    if rng.random() < 0.04:
+        doc = doc.replace("color:", "color: #zz", 1)
+    return doc
 
 
 # --------------------------------------------------------------------------- DFXP
@@ -258,8 +322,8 @@ def gen_dfxp(rng, n=None, nlangs=None, abs_units=None):
             attrs.append('style="s0"')
         regions.append('<region xml:id="r%d" %s>%s</region>' % (i, " ".join(attrs), inner))
     tt_attrs = ' xml:lang="%s"' % rng.choice(["en", "en-US", ""]) if rng.random() < 0.7 else ""
-    if rng.random() < 0.1:
-        tt_attrs += ' tts:extent="%s"' % rng.choice(["640px 360px", "50% 50%"])
+    if rng.random() < 0.2:
+        tt_attrs += ' tts:extent="%s"' % rng.choice(["640px 360px", "1280px 720px", "320px 240px", "50% 50%"])
     out = ['<?xml version="1.0" encoding="utf-8"?>' if rng.random() < 0.7 else "",
            '<tt%s xmlns="http://www.w3.org/ns/ttml" xmlns:tts="http://www.w3.org/ns/ttml#styling">' % tt_attrs,
            "<head><styling>%s</styling><layout>%s</layout></head>" % ("".join(styles), "".join(regions)),
@@ -293,6 +357,8 @@ def gen_dfxp(rng, n=None, nlangs=None, abs_units=None):
                 elif r < 0.25 and nstyles:
                     t = '<span style="s0">%s</span>' % t
                 parts.append(t)
+            if rng.random() < 0.03:
+                a[0] = rng.choice(['begin="soon"', 'start="1s"', 'begin="1t"'])   # raises after earlier paragraphs were converted
             out.append("<p %s>%s</p>" % (" ".join(a), "<br/>".join(parts)))
         out.append("</div>")
     out.append("</body></tt>")
@@ -405,6 +471,10 @@ def gen_scc(rng, nblocks=None, begin_with=None, end_state=None):
         if mode == "pop" and rng.random() < 0.6:
             lines.append("%s\t%s" % (_scc_tc(frame, sep), " ".join(D("942c"))))
             frame += rng.choice([5, 30, 60])
+    if len(lines) > 1 and rng.random() < 0.12:
+        k = rng.randrange(1, len(lines))
+        tc, rest = lines[k].split("\t", 1)
+        lines[k] = rng.choice([tc[:6], tc.replace(":", "", 1), "xx" + tc[2:]]) + "\t" + rest
     header = "Scenarist_SCC V1.0"
     doc = header + "\n\n" + "\n\n".join(lines) + "\n"
     if rng.random() < 0.04:
@@ -415,6 +485,55 @@ def gen_scc(rng, nblocks=None, begin_with=None, end_state=None):
 def last_control_word(doc):
     ws = doc.split()
     return ws[-1] if ws and len(ws[-1]) == 4 else None
+
+
+_ATTR_RE = None
+_VOCAB = [["left", "center", "right", "start", "end"], ["before", "after", "center"], ["italic", "normal"], ["bold", "normal"],
+          ["white", "red", "yellow", "#ffeedd", "#abc"], ["monospace", "Arial"], ["px", "%", "em", "c", "pt"]]
+
+
+def attr_sibling(rng, text):
+    """Sibling of an XML-ish document at the attribute level: one attribute (preferably in the head of the
+    document, where other elements depend on it) is dropped, changed, or - for the root - an extent is added."""
+    import re
+    global _ATTR_RE
+    if _ATTR_RE is None:
+        _ATTR_RE = re.compile(r'\s([\w:\-]+)="([^"]*)"')
+    ms = [m for m in _ATTR_RE.finditer(text) if not m.group(1).startswith("xmlns")]
+    if not ms:
+        return text
+    r = rng.random()
+    if r < 0.15 and "<tt" in text:
+        k = text.find("<tt") + 3
+        if "tts:extent" not in text[k:text.find(">", k)]:
+            return text[:k] + ' tts:extent="%s"' % rng.choice(["640px 480px", "1280px 720px", "320px 200px"]) + text[k:]
+    head_end = max(text.find("<body"), text.find("<BODY"), len(text) // 3)
+    weights = [(4 if m.start() < head_end else 1) for m in ms]
+    tot = sum(weights)
+    x = rng.random() * tot
+    acc = 0
+    m = ms[-1]
+    for mm, w in zip(ms, weights):
+        acc += w
+        if x < acc:
+            m = mm
+            break
+    name, val = m.group(1), m.group(2)
+    if rng.random() < 0.35:
+        return text[:m.start()] + text[m.end():]
+    new = None
+    for voc in _VOCAB:
+        if val in voc:
+            new = rng.choice([v for v in voc if v != val])
+            break
+    if new is None:
+        digits = [i for i, ch in enumerate(val) if ch.isdigit()]
+        if digits:
+            i = rng.choice(digits)
+            new = val[:i] + rng.choice([d for d in "0123456789" if d != val[i]]) + val[i + 1:]
+        else:
+            new = val + "x"
+    return text[:m.start()] + ' %s="%s"' % (name, new) + text[m.end():]
 
 
 GEN = {"srt": gen_srt, "webvtt": gen_webvtt, "microdvd": gen_microdvd, "sami": gen_sami, "dfxp": gen_dfxp, "scc": gen_scc}
@@ -504,6 +623,9 @@ def gen_recipe(rng, abs_units=None, unbalanced=None, nlangs=None, scc_safe=False
         unbalanced = rng.choice([0.0, 0.0, 0.5, 1.0])
     nlangs = nlangs or rng.choice([1, 1, 2, 3])
     layouts = [gen_layout(rng, abs_units, webvtt=True) for _ in range(rng.randint(0, 3))]
+    if layouts and rng.random() < 0.25:
+        # relative first, absolute later: a writer without video size raises only after part of its work is done
+        layouts = [gen_layout(rng, False)] + layouts[:-1] + [gen_layout(rng, True)]
     style_mode = rng.choice(["default", "mixed", "mixed"])
     langs = []
     for lang in rng.sample(LANGS, nlangs):
@@ -511,6 +633,16 @@ def gen_recipe(rng, abs_units=None, unbalanced=None, nlangs=None, scc_safe=False
                 for (s, e) in _times(rng, rng.randint(1, 4), same=0.2)]
         langs.append({"lang": lang, "captions": caps,
                       "layout": rng.choice(layouts) if layouts and rng.random() < 0.4 else None})
+    if rng.random() < 0.06:
+        # a caption of 40 short lines at the end of the first language: too many rows for the SCC writer,
+        # which raises only after it has encoded the earlier captions
+        last = langs[0]["captions"][-1]
+        nodes = []
+        for k in range(40):
+            nodes.append({"t": "text", "c": "row %d" % k, "layout": None})
+            nodes.append({"t": "break", "layout": None})
+        huge = {"start": last["end"] + 1000000, "end": last["end"] + 3000000, "nodes": nodes[:-1], "style": "default"}
+        langs[0]["captions"].append(huge)
     rec = {"langs": langs}
     r = rng.random()
     if r < 0.4:
